@@ -28,7 +28,7 @@ class C13(Check):
         return fixlib.pinned_slice(tier, ["all", "format", "core", "layout"], 8, 30, offset=1)
 
     def strategy(self, tier):
-        return fixlib.fix_case(tier=tier, kinds=SOFT_KINDS if tier == "quick" else None)
+        return fixlib.fix_case(tier=tier, kinds=SOFT_KINDS if tier == "quick" else None, structure=True)
 
     def examples(self, tier):
         return 65 if tier == "quick" else 1300
